@@ -864,6 +864,8 @@ def _uninitialised(model, rep):
     obj = Obj(mcls, {
         "p": PS(), "facets": "FACETS", "f2t": NArr([list(r) for r in f2t]),
         "t2f": "T2F", "dim": PyFunc(lambda a, k, n: 2),
+        # the midpoints only feed the predicate, which selects everything
+        "_facet_midpoints": PyFunc(lambda a, k, n: PS()),
         "boundary_facets": PyFunc(lambda a, k, n: NArr([1, 2, 3, 4])),
         "_mapping": PyFunc(lambda a, k, n: Obj(None, {
             "normals": PyFunc(lambda a2, k2, n2: PS())}))})
@@ -1057,10 +1059,12 @@ MUTANTS = [
       "opts['M'] = build_pc_diag(A)"), "C15-R4"),
     ("global RNG reseeded again",
      ("skfem/mesh/mesh_tet_1.py",
-      "        rng = np.random.RandomState(1337)\n        p = p.copy() + "
-      "1e-10 * np.abs(p).max() * rng.random_sample(p.shape)",
-      "        np.random.seed(1337)\n        p = p.copy() + 1e-10 * "
-      "np.abs(p).max() * np.random.random(p.shape)"), "C15-R4"),
+      "        rng = np.random.RandomState(1337)\n        p = p - p[:, "
+      "t[0, :1]]\n        p = p + 1e-10 * np.abs(p[:, t]).max() * "
+      "rng.random_sample(p.shape)",
+      "        np.random.seed(1337)\n        p = p - p[:, t[0, :1]]\n"
+      "        p = p + 1e-10 * np.abs(p[:, t]).max() * "
+      "np.random.random(p.shape)"), "C15-R4"),
     ("to_meshio updates the caller's dictionary again",
      ("skfem/io/meshio.py",
       "        cell_data = {**({} if cell_data is None else cell_data),\n"
